@@ -546,7 +546,7 @@ namespace c07
   };
 
   /// S2: the stop logic, replayed on the defects the solver produced
-  template<typename DT> void check_stop_logic(const Limits<DT>& L, const SolveResult<DT>& R, int kind, bool skip_class, bool x_finite, Ctx& c)
+  template<typename DT> void check_stop_logic(const Limits<DT>& L, const SolveResult<DT>& R, int kind, bool skip_class, bool x_finite, unsigned long over)
   {
     const DT d0 = R.def0; const int st = R.status;
     VF_CHECK(st == (int)Status::success || st == (int)Status::aborted || st == (int)Status::diverged || st == (int)Status::max_iter || st == (int)Status::stagnated,
@@ -582,12 +582,12 @@ namespace c07
     switch(st)
     {
     case (int)Status::max_iter:
-      VF_CHECK(R.iters == L.max_iter, "S2 status max_iter but num_iter=" << R.iters << " max_iter=" << L.max_iter << " (min_iter " << L.min_iter << ")");
+      VF_CHECK(R.iters >= L.max_iter && R.iters <= L.max_iter + over, "S2 status max_iter but num_iter=" << R.iters << " max_iter=" << L.max_iter << " (min_iter " << L.min_iter << ")");
       break;
     case (int)Status::success:
       if(R.iters > 0)
       {
-        VF_CHECK(R.iters <= L.max_iter, "S2 success with num_iter=" << R.iters << " > max_iter=" << L.max_iter);
+        VF_CHECK(R.iters <= L.max_iter + over, "S2 success with num_iter=" << R.iters << " > max_iter=" << L.max_iter);
         VF_CHECK(R.iters >= L.min_iter, "S2 success with num_iter=" << R.iters << " < min_iter=" << L.min_iter);
         if(!skip_class) VF_CHECK(L.conv(R.defF, d0), "S2 success but reported final defect " << (double)R.defF << " does not satisfy the tolerances (d0 " << (double)d0 << ")");
       }
@@ -610,6 +610,5 @@ namespace c07
         "S2 aborted although defect " << (double)R.defF << " and iterate are finite (no preconditioner failure possible)");
       break;
     }
-    (void)c;
   }
 } // namespace c07
